@@ -184,23 +184,103 @@ def r2_validate(ctx):
         ctx.ob("R2", "all-variants-handled", False, "match arms %s differ from enum variants %s" % (sorted(seen), sorted(variants.values())), f)
     # is_at_least bodies
     c = p.fn(SEC + "ConjecturedSecurity::is_at_least")
-    sites = cmp_sites(c)
-    good = len(sites) == 1 and sites[0]["op"] == "Ge" and op_local(sites[0]["b"]) is not None and 2 in c.copy_chain(op_local(sites[0]["b"])) \
-        and sites[0]["local"] == 0
+    sites = [_ge_site(c, x) for x in cmp_sites(c)]
+    good = len(sites) == 1 and sites[0] is not None and 2 in c.copy_chain(op_local(sites[0][1])) and \
+        1 in c.slice_of_operand(sites[0][0], at=(sites[0][2]["bb"], 10**6))["args"] and _bool_fn(c, [sites[0][2]]) == {(True,): True, (False,): False}
     ctx.ob("R2", "ConjecturedSecurity::is_at_least-body", good, "is_at_least(bits) = self.0 >= bits" if good else
            "ConjecturedSecurity::is_at_least is not `self.0 >= bits`", c)
     q = p.fn(SEC + "ProvenSecurity::is_at_least")
-    sites = cmp_sites(q)
-    fields = set()
-    good = len(sites) == 2
-    for s in sites:
-        good &= s["op"] == "Ge" and op_local(s["b"]) is not None and 2 in q.copy_chain(op_local(s["b"]))
-        sl = q.slice_of_operand(s["a"], at=(s["bb"], 10**6))
-        fields |= set(slice_field_bases(sl))
-    good &= {"list_decoding", "unique_decoding"} <= fields
+    sites = [_ge_site(q, x) for x in cmp_sites(q)]
+    good = bool(sites) and all(x is not None and 2 in q.copy_chain(op_local(x[1])) for x in sites)
+    if good and len(sites) == 2:
+        fields = [set(slice_field_bases(q.slice_of_operand(x[0], at=(x[2]["bb"], 10**6)))) for x in sites]
+        good = sorted(map(sorted, fields)) == [["list_decoding"], ["unique_decoding"]] and \
+            _bool_fn(q, [x[2] for x in sites]) == {(True, True): True, (True, False): True, (False, True): True, (False, False): False}
+    elif good and len(sites) == 1:
+        # max(list_decoding, unique_decoding) >= bits: the same disjunction
+        val, _, site = sites[0]
+        good = False
+        for x in (q.copy_chain(op_local(val)) if op_local(val) is not None else ()):
+            for d in q.defs(x):
+                if d["kind"] == "call" and (callee_of(d["term"]) or {}).get("name") == "max" and (callee_of(d["term"]) or {}).get("krate") == "core" \
+                        and len(d["term"]["a"]) == 2:
+                    fs = [set(slice_field_bases(arg_slice(q, d["term"], i))) for i in range(2)]
+                    good = sorted(map(sorted, fs)) == [["list_decoding"], ["unique_decoding"]] and \
+                        _bool_fn(q, [site]) == {(True,): True, (False,): False}
+    else:
+        good = False
     ctx.ob("R2", "ProvenSecurity::is_at_least-body", good,
            "is_at_least(bits) = list_decoding >= bits || unique_decoding >= bits" if good else
            "ProvenSecurity::is_at_least is not the disjunction of the two `>= bits` tests", q)
+
+
+def _ge_site(f, site):
+    """normalise a comparison to (value, threshold, site) when it reads `value >= threshold`."""
+    if site["op"] == "Ge":
+        v, t = site["a"], site["b"]
+    elif site["op"] == "Le":
+        v, t = site["b"], site["a"]
+    else:
+        return None
+    if op_local(v) is None or op_local(t) is None:
+        return None
+    return v, t, site
+
+
+def _bool_fn(f, sites):
+    """the function's boolean result as a table over the truth values of the given comparison sites
+    (None for a combination whose result is not determined by them)."""
+    import itertools
+    out = {}
+    for combo in itertools.product((True, False), repeat=len(sites)):
+        env = {}
+        pin = {(s["bb"], s["local"]): v for s, v in zip(sites, combo)}
+        bb, steps, res = 0, 0, None
+        while steps < 64:
+            steps += 1
+            b = f.blocks[bb]
+            for st in b["s"]:
+                if st["k"] != "assign" or len(st["p"]) != 1:
+                    continue
+                l, rv = st["p"][0], st["rv"]
+                if (bb, l) in pin and rv[0] == "bin":
+                    env[l] = pin[(bb, l)]
+                elif rv[0] == "use":
+                    k = op_const(rv[1])
+                    if k is not None and k.get("ty") == "bool":
+                        env[l] = str(k.get("v")) in ("1", "true", "True")
+                    elif op_local(rv[1]) is not None and len(ir.op_place(rv[1])) == 1:
+                        env[l] = env.get(op_local(rv[1]))
+                    else:
+                        env[l] = None
+                elif rv[0] == "un" and rv[1] == "Not":
+                    x = env.get(op_local(rv[2])) if op_local(rv[2]) is not None else None
+                    env[l] = None if x is None else not x
+                elif rv[0] == "bin" and rv[1] in ("BitOr", "BitAnd"):
+                    x, y = (env.get(op_local(o)) if op_local(o) is not None else None for o in (rv[2], rv[3]))
+                    env[l] = None if x is None or y is None else ((x or y) if rv[1] == "BitOr" else (x and y))
+                else:
+                    env[l] = None
+            t = b["t"]
+            if t["k"] == "return":
+                res = env.get(0)
+                break
+            if t["k"] == "goto":
+                bb = t["t"]
+            elif t["k"] == "switch":
+                x = env.get(op_local(t["d"])) if op_local(t["d"]) is not None else None
+                if x is None:
+                    break
+                arms = {int(v): tg for v, tg in t["arms"]}
+                bb = arms.get(1 if x else 0, t["else"])
+            elif t["k"] in ("call", "drop", "assert") and isinstance(t.get("t"), int):
+                if t.get("dest") and len(t["dest"]) == 1:
+                    env[t["dest"][0]] = None
+                bb = t["t"]
+            else:
+                break
+        out[combo] = res
+    return out
 
 
 def run(ctx):
